@@ -199,10 +199,13 @@ def take_baseline():
     return {cls: set(cache_objects(cls)) for cls in TRACKED}
 
 
-def run_history(steps, interp_offset=0):
-    """-> (viol, evals).  ``steps`` is a list of step names."""
+def run_history(steps, interp_offset=0, baseline=None):
+    """-> (viol, evals).  ``steps`` is a list of step names.  ``baseline``: table contents before the
+    history (taken here if not supplied; a caller may reuse the previous one as long as every history
+    so far ended with the tables back at that baseline)."""
     viol, evals = [], []
-    baseline = take_baseline()
+    if baseline is None:
+        baseline = take_baseline()
     w = World()
     for n, st in enumerate(steps):
         where = "step %d (%s) of %s" % (n, st, steps)
@@ -481,6 +484,20 @@ def warm_up():
     _WARM.append(1)
 
 
+def expand(chunk):
+    """A chunk is a list of cases; a case of kind 'term_prefix' stands for all histories of length
+    <= maxlen starting with the given prefix (generated lazily, never materialised in the parent)."""
+    for case in chunk:
+        if case["kind"] != "term_prefix":
+            yield case
+            continue
+        pre, L = case["prefix"], case["maxlen"]
+        for n in range(len(pre), L + 1):
+            for suf in itertools.product(STEPS, repeat=n - len(pre)):
+                h = list(pre) + list(suf)
+                yield dict(kind="term", steps=h, interp_offset=len(h) % 3)
+
+
 def work(chunk):
     from collections import Counter
 
@@ -490,11 +507,14 @@ def work(chunk):
 
     warm_up()
     res = RtcResult("C07", "drv_misc")
-    for case in chunk:
+    base = take_baseline()
+    for case in expand(chunk):
         k = case["kind"]
         try:
             if k == "term":
-                viol, evals = run_history(case["steps"], case.get("interp_offset", 0))
+                viol, evals = run_history(case["steps"], case.get("interp_offset", 0), base)
+                if any(c in ("tables_return_to_baseline", "tables_hold_entries_weakly", "arrays_reclaimed") for c, _, _ in viol):
+                    base = take_baseline()
             elif k == "static":
                 viol, evals = static_identity_checks()
             else:
@@ -504,7 +524,7 @@ def work(chunk):
             import traceback
 
             viol, evals = [("harness_or_funsor_exception", traceback.format_exc()[-1200:], ("exception", type(e).__name__))], []
-            gc.collect()
+            base = take_baseline()
         key = (k, tuple(map(tuple, case["steps"])) if k != "term" else tuple(case.get("steps", ())), case.get("interp_offset", 0)) if k != "static" else ("static",)
         cnt = Counter(evals)
         first = True
@@ -528,10 +548,15 @@ def run(res, tier, seed, jobs):
     L = 6 if thorough else 5
     Lg = 4 if thorough else 3
     cases = [dict(kind="static", steps=[])]
+    # histories of length 1 explicitly; longer ones by two-step prefix (expanded lazily inside the workers)
     nterm = 0
-    for h in histories(L):
-        cases.append(dict(kind="term", steps=h, interp_offset=len(h) % 3))
+    cstep = [s_ for s_ in STEPS if s_.startswith("c:")]
+    for c1 in cstep:
+        cases.append(dict(kind="term", steps=[c1], interp_offset=1))
         nterm += 1
+        for s2 in STEPS:
+            cases.append(dict(kind="term_prefix", prefix=[c1, s2], maxlen=L))
+            nterm += sum(len(STEPS) ** (n - 2) for n in range(2, L + 1))
     nrand = 0
     if thorough:
         rs = np.random.RandomState(seed)
@@ -546,7 +571,9 @@ def run(res, tier, seed, jobs):
         for h in generic_histories(kind, Lg, nspec):
             cases.append(dict(kind=kind, steps=[list(s) for s in h]))
             ngen += 1
-    chunks = [cases[i :: jobs * 8] for i in range(jobs * 8)]
+    heavy = [c for c in cases if c["kind"] == "term_prefix"]
+    light = [c for c in cases if c["kind"] != "term_prefix"]
+    chunks = [[c] for c in heavy] + [light[i :: jobs * 2] for i in range(jobs * 2)]
     for r in misc_util.pmap(work, [c for c in chunks if c], jobs):
         res.merge(r)
         misc_util.merge_counts(res, r)
